@@ -55,10 +55,44 @@ func Pipeline(id int, seed int64, deadline time.Duration) PipeRun {
 	for i := range run.Stream {
 		run.Stream[i] = i + 1
 	}
-	var class = col.Queue[int](cdc.Notation().Make())
+	// the stream travels as `any`: token -1 is nil and token -2 the empty string
+	// (values that the inspector calls "undefined" are values like any other)
+	var enc = func(t int) any {
+		switch t {
+		case -1:
+			return nil
+		case -2:
+			return ""
+		}
+		return t
+	}
+	var dec = func(v any) int {
+		switch x := v.(type) {
+		case nil:
+			return -1
+		case string:
+			if x == "" {
+				return -2
+			}
+		case int:
+			return x
+		}
+		return -9
+	}
+	if rnd.Intn(2) == 0 {
+		for i := range run.Stream {
+			switch rnd.Intn(7) {
+			case 0:
+				run.Stream[i] = -1
+			case 1:
+				run.Stream[i] = -2
+			}
+		}
+	}
+	var class = col.Queue[any](cdc.Notation().Make())
 	var grp = &counter{}
 	var in = class.MakeWithCapacity(uint(run.Cap))
-	var outs col.Sequential[col.QueueLike[int]]
+	var outs col.Sequential[col.QueueLike[any]]
 	if run.Mode == "fork" {
 		outs = class.Fork(grp, in, uint(run.K))
 	} else {
@@ -67,7 +101,7 @@ func Pipeline(id int, seed int64, deadline time.Duration) PipeRun {
 	run.WgSpawn = append(run.WgSpawn, int(grp.n.Load()))
 	var finals = outs.AsArray()
 	if run.Mode == "splitjoin" {
-		finals = []col.QueueLike[int]{class.Join(grp, outs)}
+		finals = []col.QueueLike[any]{class.Join(grp, outs)}
 		run.WgSpawn = append(run.WgSpawn, int(grp.n.Load()))
 	}
 	var wg sync.WaitGroup
@@ -88,7 +122,7 @@ func Pipeline(id int, seed int64, deadline time.Duration) PipeRun {
 				var v, ok = q.RemoveHead()
 				mu.Lock()
 				if ok {
-					run.Readers[i].Got = append(run.Readers[i].Got, v)
+					run.Readers[i].Got = append(run.Readers[i].Got, dec(v))
 				} else {
 					run.Readers[i].Closed = true
 				}
@@ -113,7 +147,7 @@ func Pipeline(id int, seed int64, deadline time.Duration) PipeRun {
 	go func() {
 		defer wg.Done()
 		for _, v := range run.Stream {
-			in.AddValue(v)
+			in.AddValue(enc(v))
 			if v%7 == 0 {
 				runtime.Gosched()
 			}
